@@ -32,6 +32,7 @@ package hessian
 import (
 	"bufio"
 	"bytes"
+	"fmt"
 	"io"
 	"reflect"
 	"time"
@@ -115,7 +116,7 @@ func (d *Decoder) ReadObject() (obj interface{}, err error) {
 	// kind, ...) surfaces as a panic of package reflect: report it as an error
 	defer func() {
 		if r := recover(); r != nil {
-			obj, err = nil, newCodecError("ReadObject", "invalid data: %v", r)
+			obj, err = nil, newCodecError("ReadObject", "invalid data: %s", fmt.Sprint(r))
 		}
 	}()
 	return EnsureInterface(d.ReadData())
